@@ -112,6 +112,11 @@ def main(pid, tier, jobs=None):
     structures = mod.structures(tier)
     opts = dict(getattr(mod, 'EXPLORE_OPTS', {}))
     opts.update(getattr(mod, 'EXPLORE_OPTS_TIER', {}).get(tier, {}))
+    if tier == 'quick':
+        # a quick structure that is still exploring after three minutes (the unchanged tree needs seconds) is cut off
+        # and reported as incomplete (exit 2 unless a counterexample was already found): a change that makes the path tree
+        # explode must not make the check run for hours
+        opts['max_seconds'] = min(opts.get('max_seconds', 600), int(os.environ.get('VX_QUICK_STRUCTURE_SECONDS', '180')))
     opts['seed'] = seed
     # second opinion: in the thorough tier every 25th solver-decided property query is re-discharged with cvc5 from the
     # SMT-LIB2 dump of the z3 solver state (VX_CROSS overrides the stride; 0 = off)
